@@ -151,3 +151,35 @@ def pattern_value_canary(H, case):
     ctl = cls.controllers[case[1]]
     v = H.int("v", ctl.value_type.min, ctl.value_type.max)
     H.check("canary_below_0x8000", H.call(ctl.pattern_value, m, v) < 0x8000)
+
+
+def _dependent_cases(tier):
+    out = []
+    for cid, (cname, name) in K.controller_cases(tier):
+        if isinstance(K.class_by_name(cname).controllers[name].value_type, DependentRange):
+            out.append((cid, (cname, name)))
+    return out
+
+
+@contract("pattern_value_after_load", ["C10"], cases=_dependent_cases,
+          targets=["rv.controller:Controller.pattern_value", "rv.controller:DependentRange.parent", "rv.modules.module:Module.set_raw", "rv.modules.module:Module.clone"])
+def pattern_value_after_load(H, case):
+    """Unit-dependent controllers on a module AS THE LOADER LEAVES IT (unit and value applied through
+    set_raw during clone()): for every unit, the pattern encoding uses the loaded unit's range -
+    min -> 0, max -> 0x8000, monotone - and the stored-value round trip is exact."""
+    cname, name = case
+    cls = K.class_by_name(cname)
+    ctl = cls.controllers[name]
+    m = cls()
+    t = K.unit_cases(H, m, ctl)
+    v = H.int("v", t.min, t.max)
+    w = H.int("w", t.min, t.max)
+    m.controller_values[name] = v
+    q = H.call(m.clone)
+    H.check("unit_loaded", q.controller_values[ctl.value_type.ctl_name] == m.controller_values[ctl.value_type.ctl_name])
+    H.check("value_loaded", H.eq(q.controller_values[name], v))
+    c2 = type(q).controllers[name]
+    H.check("min_maps_to_0", H.call(c2.pattern_value, q, t.min) == 0)
+    H.check("max_maps_to_0x8000", H.call(c2.pattern_value, q, t.max) == 0x8000)
+    H.check("monotone", H.implies(v <= w, H.call(c2.pattern_value, q, v) <= H.call(c2.pattern_value, q, w)))
+    H.cover("reached")
